@@ -340,8 +340,10 @@ func (c *Conn) handleMail(arg string) {
 	for key, value := range args {
 		switch key {
 		case "SIZE":
-			size, err := strconv.ParseUint(value, 10, 32)
-			if err != nil {
+			// RFC 1870 allows up to 20 digits. A value that does not
+			// fit is clamped, it is over any limit anyway.
+			size, err := strconv.ParseUint(value, 10, 63)
+			if ne, ok := err.(*strconv.NumError); err != nil && (!ok || ne.Err != strconv.ErrRange) {
 				c.writeResponse(501, EnhancedCode{5, 5, 4}, "Unable to parse SIZE as an integer")
 				return
 			}
